@@ -1,12 +1,15 @@
 """C17 — LKH re-sequencing, DBSCAN and k-medoids keep their contracts (plugin for tools/verif.py)."""
 import os, re, json, subprocess, itertools
+from fractions import Fraction
 from concurrent.futures import ThreadPoolExecutor
 import coqterm
 
 ID = 'C17'
 HARNESS = 'c17'
-COQ_IMPORTS = 'From VRP Require Import Base.Tac Model.Dbscan Model.Lkh Model.KMedoids.'
-MODEL_TARGETS = ['theories/Model/Dbscan.vo', 'theories/Model/Lkh.vo', 'theories/Model/KMedoids.vo']
+COQ_IMPORTS = ('From Coq Require Import QArith.\nFrom VRP Require Import Base.Tac Model.Dbscan Model.Lkh Model.KMedoids Model.ClusterWrappers.\n'
+               'Local Open Scope Z_scope.')
+MODEL_TARGETS = ['theories/Model/Dbscan.vo', 'theories/Model/Lkh.vo', 'theories/Model/KMedoids.vo', 'theories/Model/ClusterWrappers.vo']
+MODEL_NEEDS_IMPL = True     # the job-cluster model is evaluated on the neighbourhoods the public Jobs::neighbors API reported
 EXTRA_COQ_TARGETS = list(MODEL_TARGETS)
 SIZES = {'quick': 1500, 'thorough': 12000, 'search': 6000}
 RULE = ('cases: (dbscan) 1-14 points on small integer grids (duplicates, collinear points), eps^2 thresholds on integer squared '
@@ -17,12 +20,22 @@ RULE = ('cases: (dbscan) 1-14 points on small integer grids (duplicates, colline
         'caller\'s shape) and arbitrary ones; neighbour lists complete-sorted-by-cost (as lkh_search builds them), truncated, '
         'shuffled; separate malformed stream (asymmetric matrices, repeated nodes, foreign nodes). (k-medoids) 1-12 points, integer '
         'distance matrices (grid squared distances with ties / tie-free Sidon values), k 1-4, hierarchical tiers 0-4; '
-        'malformed stream with repeated points and k above the number of distinct points. '
+        'malformed stream with repeated points and k above the number of distinct points; 45% of the k-medoids cases use ASYMMETRIC '
+        'distance matrices (all entries distinct = tie-free, random, metric base with one-way detours, one-way ring road), for '
+        'create_kmedoids and create_hierarchical_kmedoids alike. (job clusters) a real Problem of 1-14 jobs (single jobs, jobs with '
+        'alternative places, multi jobs, jobs without any location) over integer matrices per profile (1-2 profiles, 1-2 vehicles '
+        'per profile, optional one-way detours): two dense groups joined by one shared border job where one group\'s core has '
+        'exactly min_points neighbours (a legitimate cluster of <= min_points members), evenly spaced chains (cores with exactly '
+        'min_points neighbours), blobs with repeated coordinates, random grids; min_points None/0-5/7, epsilon given (cost values, '
+        'cost+1/2) or estimated (only where every divisor of the estimate is a power of two), job slice permuted / subset / '
+        'repeated; the public create_job_clusters AND Jobs::clusters() (what the cluster-removal ruin reads) are both read. '
+        '(multi tier) create_multi_tier_clusters on 0-18 locations, 1-2 profiles, asymmetric matrices. '
         'non-trivial = distinct inputs whose output differs from the trivial one (a cluster was grown / the tour changed / '
         'more than one medoid).')
 TRUSTED = ['f64 arithmetic on integer-valued costs/distances below 2^53 is exact; sum/len averages in k-medoids order like the sums (validated each run)',
            'HashMap/HashSet iteration order is modelled as an oracle; exact output comparison only on runs where the model saw no order-dependent tie',
-           'rayon chunking of fold_reduce is an oracle argument of the model; the harness pins it with a 1-thread pool (two halves) for exact comparison and also runs the default pool for the contract oracle']
+           'rayon chunking of fold_reduce is an oracle argument of the model; the harness pins it with a 1-thread pool (two halves) for exact comparison and also runs the default pool for the contract oracle',
+           'job clusters: the neighbourhood rows are those the public Jobs::neighbors API reports (the job index itself is an input, not modelled); index costs are integers below 2^24 (exact in f32); the estimated epsilon is modelled over exact rationals, the generators only ask for it where all divisors (taken neighbours + 1, number of profiles) are powers of two, and Point::distance_to_line divides all cross products by the same positive length so `>` orders like the exact absolute cross products']
 ASSUMPTIONS = ['LKH cost and termination clauses (C17_lkh_cost, C17_lkh_terminates): symmetric cost matrix (the property quantifies over '
                'symmetric matrices only), duplicate-free input path, hash order returns entries of the map',
                'LKH cost / termination are proved over exact integer costs (Z), not over f64 rounding: with non-representable costs or '
@@ -179,10 +192,58 @@ def gen_lkh(rng):
     return {'op': 'lkh', 'path': path, 'cost': cost, 'nbr': nbr, 'kind': kind, 'shape': shape, 'timeout_ms': timeout}
 
 
+def asym_matrix(rng, n, kind):
+    """integer matrix with zero diagonal whose two directions differ (distance_fn(a, b) = m[a][b])"""
+    if kind == 'asym-distinct':
+        # tie-free: all off-diagonal entries pairwise distinct
+        vals = rng.shuffle(list(range(1, n * n + 8)))
+        m = [[0] * n for _ in range(n)]
+        k = 0
+        for i in range(n):
+            for j in range(n):
+                if i != j:
+                    m[i][j] = vals[k]
+                    k += 1
+        return m
+    if kind == 'asym-random':
+        hi = rng.choice([3, 9, 60, 1000])
+        return [[0 if i == j else rng.range(1, hi) for j in range(n)] for i in range(n)]
+    if kind == 'asym-oneway':
+        # a metric base with one-way detours: some directed legs cost a multiple of the way back
+        m = sym_matrix(rng, n, 'metric')
+        for i in range(n):
+            for j in range(n):
+                if i != j and rng.chance(1, 3):
+                    m[i][j] = m[i][j] * rng.range(2, 5) + rng.range(0, 7)
+        return m
+    # 'asym-ring': one-way ring road, going backwards means going all the way round
+    step = [rng.range(1, 9) for _ in range(n)]
+    total = sum(step)
+    m = [[0] * n for _ in range(n)]
+    for i in range(n):
+        acc = 0
+        for t in range(1, n):
+            acc += step[(i + t - 1) % n]
+            m[i][(i + t) % n] = acc
+    perm = rng.shuffle(list(range(n)))
+    return [[m[perm[i]][perm[j]] for j in range(n)] for i in range(n)]
+
+
+ASYM_KINDS = ['asym-distinct', 'asym-distinct', 'asym-random', 'asym-oneway', 'asym-oneway', 'asym-ring']
+TIE_FREE_KINDS = ('sidon', 'asym-distinct')
+
+
+def km_matrix(rng, dim, kind):
+    return asym_matrix(rng, dim, kind) if kind.startswith('asym') else sym_matrix(rng, dim, kind)
+
+
 def gen_kmedoids(rng):
     dim = rng.range(1, 12)
-    kind = rng.choice(['sidon', 'sidon', 'metric', 'metric', 'medium', 'small'])
-    dist = sym_matrix(rng, dim, kind)
+    if rng.chance(9, 20):
+        kind = rng.choice(ASYM_KINDS)
+    else:
+        kind = rng.choice(['sidon', 'sidon', 'metric', 'metric', 'medium', 'small'])
+    dist = km_matrix(rng, dim, kind)
     pts = rng.shuffle(list(range(dim)))
     if rng.chance(1, 4):
         pts = pts[:rng.range(1, dim)]
@@ -208,16 +269,166 @@ def gen_kmedoids(rng):
             'threads': 1 if rng.chance(3, 4) else 0}
 
 
+def gen_multitier(rng):
+    """create_multi_tier_clusters(profile, transport): k-medoids of all matrix locations for every k <= size/3 of a fixed list"""
+    size = rng.choice([0, 1, 3, 5, 6, 6, 7, 8, 9, 9, 10, 11, 12, 12, 13, 15, 16, 18])
+    nprof = rng.choice([1, 1, 2])
+    kinds = [rng.choice(ASYM_KINDS + ['sidon', 'metric']) for _ in range(nprof)]
+    dist = [km_matrix(rng, size, k) for k in kinds]
+    profile = rng.below(nprof)
+    return {'op': 'multitier', 'size': size, 'dist': dist, 'profile': profile, 'kind': kinds[profile]}
+
+
+def _jc_layout(rng):
+    """positions (one per location) and the distance matrix of a job-cluster case;
+    returns (shape, matrix, hint) with hint = None | (min_points, epsilon in distance units as [num, den]) fitting the layout"""
+    r = rng.below(100)
+    hint = None
+    if r < 34:
+        # two dense groups A and B joined by ONE shared border job (the shape of seeded/C17-5): the last job of A and the first
+        # job of B are cores with the border job in reach, the border job itself has only these two neighbours; B's core has
+        # EXACTLY min_points neighbours, so the group visited second keeps <= min_points members
+        mp = rng.choice([3, 3, 3, 4, 5])
+        g = rng.range(mp - 1, mp + 1)
+        a = rng.range(mp, mp + 2)
+        xs = list(range(a))
+        bx = a - 1 + g
+        xs.append(bx)
+        xs += [bx + g + t for t in range(mp)]
+        if rng.chance(1, 2):
+            xs.append(xs[-1] + rng.range(g + 2, 30))          # an outlier
+        if rng.chance(1, 4):
+            xs.append(bx + g + mp + g)                        # a second border job behind B (claimed by B only)
+        coords = [(v, 0) for v in xs]
+        if rng.chance(1, 3):
+            coords = [(0, v) for v in xs]
+        man = True
+        hint = (rng.choice([mp, mp, mp, None]) if mp == 3 else mp, [2 * g + 1, 2])
+        shape = 'shared-border'
+    elif r < 48:
+        # evenly spaced chain: interior jobs have exactly 2h neighbours within epsilon (sparse cores with exactly min_points)
+        n = rng.range(4, 11)
+        st = rng.range(1, 3)
+        h = rng.choice([1, 1, 2])
+        coords = [(i * st, 0) for i in range(n)]
+        if rng.chance(1, 3):
+            cut = rng.range(2, n - 1)
+            coords = [(i * st, 0) for i in range(cut)] + [(1000 + i * st, 0) for i in range(n - cut)]
+        man = True
+        hint = (rng.choice([2 * h, 2 * h, 2 * h + 1, max(2 * h - 1, 0)]), [2 * st * h + 1, 2])
+        shape = 'sparse-chain'
+    elif r < 62:
+        # dense blobs (repeated coordinates) with stragglers
+        n = rng.range(4, 12)
+        centres = [(rng.below(12), rng.below(12)) for _ in range(rng.range(1, 3))]
+        coords = []
+        for _ in range(n):
+            cx, cy = rng.choice(centres)
+            coords.append((cx + rng.below(3), cy + rng.below(2)))
+        man = rng.chance(1, 2)
+        shape = 'blobs'
+    else:
+        n = rng.range(1, 12)
+        g = rng.range(2, 8)
+        coords = [(rng.below(g), rng.below(g)) for _ in range(n)]
+        man = rng.chance(1, 2)
+        shape = 'grid'
+    n = len(coords)
+    m = [[(abs(p[0] - q[0]) + abs(p[1] - q[1])) if man else (p[0] - q[0]) ** 2 + (p[1] - q[1]) ** 2 for q in coords] for p in coords]
+    if rng.chance(1, 5):
+        # one-way detours: the neighbourhoods become asymmetric
+        for i in range(n):
+            for j in range(n):
+                if i != j and rng.chance(1, 4):
+                    m[i][j] += rng.range(1, 6)
+        shape += '+asymmetric'
+    return shape, m, hint
+
+
+def gen_jobclusters(rng):
+    shape, m, hint = _jc_layout(rng)
+    nloc = len(m)
+    size = nloc + 1                                   # the last location is the depot
+    far = 2000
+
+    def widen(mat):
+        out = [row + [far] for row in mat]
+        out.append([far] * nloc + [0])
+        return out
+    nprof = 2 if rng.chance(1, 4) else 1
+    dist = [widen(m)]
+    if nprof == 2:
+        # the second profile sees other distances: only the FIRST profile may decide the clusters
+        dist.append(widen([[(v * 3 + rng.below(4)) if i != j else 0 for j, v in enumerate(row)] for i, row in enumerate(m)]))
+    dur = [[[rng.below(3) if i != j else 0 for j in range(size)] for i in range(size)] if hint is None and rng.chance(1, 5)
+           else [[0] * size for _ in range(size)] for _ in range(nprof)]
+    jobs = []
+    for l in rng.shuffle(list(range(nloc))):
+        r = rng.below(100)
+        if r < 80 or hint is not None and r < 96:
+            jobs.append({'places': [l]})
+        elif r < 88:
+            jobs.append({'places': [l, rng.below(nloc)]})           # alternative places: the cost is the minimum over the pairs
+        elif r < 94:
+            jobs.append({'multi': [[l], [rng.below(nloc)]]})
+        else:
+            jobs.append({'places': [l, None]})
+    for _ in range(rng.choice([0, 0, 0, 1, 1, 2])):
+        # jobs without any location: cost 0 to everybody in the index, must be ignored by the clustering
+        jobs.insert(rng.below(len(jobs) + 1), rng.choice([{'places': [None]}, {'multi': [[None], [None]]}]))
+    vehicles = [{'profile': p, 'start': nloc, 'per_distance': rng.choice([1, 1, 1, 2]), 'per_time': rng.choice([0, 0, 1])}
+                for p in range(nprof)]
+    if rng.chance(1, 5):
+        # two vehicles of the first profile: the index uses their AVERAGE cost rates (kept integral)
+        vehicles.append(dict(vehicles[0], per_distance=vehicles[0]['per_distance'] + 2))
+    if rng.chance(1, 6):
+        vehicles = [dict(v, profile=v['profile'] + 1) for v in vehicles]      # first profile need not be index 0
+    njobs = len(jobs)
+    order = list(range(njobs))
+    r = rng.below(10)
+    if r < 5:
+        order = rng.shuffle(order)
+    elif r < 7:
+        order = rng.shuffle(order)[:rng.range(0, njobs)]
+    elif r < 8 and njobs:
+        order = order + [rng.below(njobs) for _ in range(rng.below(3))]
+    located = sum(1 for j in jobs if job_has_locations(j))
+    minp = rng.choice([None, None, 0, 1, 2, 2, 3, 3, 3, 4, 5, 7])
+    eff = max(3 if minp is None else minp, 2)
+    rate = sum(v['per_distance'] for v in vehicles if v['profile'] == vehicles[0]['profile']) // sum(1 for v in vehicles if v['profile'] == vehicles[0]['profile'])
+    allv = sorted(set(v * rate for row in m for v in row))
+    if hint is not None and rng.chance(4, 5):
+        minp = hint[0]
+        eps = [hint[1][0] * rate, hint[1][1]]
+    elif rng.chance(1, 4) and (located <= eff or (eff + 1 in (4, 8) and located >= eff + 1)):
+        eps = None        # estimated; only where every divisor of the estimate is a power of two (or nothing can be a core)
+    else:
+        base = rng.choice(allv[:8] + [rng.range(1, 6)]) if allv else 1
+        eps = rng.choice([[base, 1], [base + 1, 1], [2 * base + 1, 2], [base, 1], [2 * base + 3, 2], [0, 1], [1000, 1]])
+    return {'op': 'jobclusters', 'size': size, 'dist': dist, 'dur': dur, 'jobs': jobs, 'vehicles': vehicles,
+            'order': order, 'minp': minp, 'eps': eps, 'shape': shape}
+
+
+def job_has_locations(j):
+    if 'multi' in j:
+        return any(l is not None for s in j['multi'] for l in s)
+    return any(l is not None for l in j['places'])
+
+
 def generate(rng, tier, n):
     cases = []
     for _ in range(n):
         r = rng.below(100)
-        if r < 30:
+        if r < 22:
             cases.append(gen_dbscan(rng))
+        elif r < 37:
+            cases.append(gen_jobclusters(rng))
         elif r < 70:
             cases.append(gen_lkh(rng))
-        else:
+        elif r < 94:
             cases.append(gen_kmedoids(rng))
+        else:
+            cases.append(gen_multitier(rng))
     return cases
 
 
@@ -227,12 +438,61 @@ def corpus():
         # a noise point later absorbed as a border point; a border point claimed by the first cluster that reaches it
         {'op': 'dbscan', 'n': 5, 'pts': [0, 1, 2, 3, 4], 'minp': 3, 'nbr': [[0, 1], [0, 1, 2], [1, 2, 3], [2, 3, 4], [3, 4]], 'kind': 'abstract'},
         {'op': 'dbscan', 'n': 3, 'pts': [2, 1, 0], 'minp': 0, 'nbr': [], 'kind': 'abstract'},
+    ] + _wrapper_corpus()
+
+
+ONEWAY6 = [[0, 1, 2, 30, 31, 32], [9, 0, 1, 30, 31, 32], [9, 9, 0, 30, 31, 32],
+           [30, 31, 32, 0, 1, 2], [30, 31, 32, 9, 0, 1], [30, 31, 32, 9, 9, 0]]
+
+
+def _wrapper_corpus():
+    """the instances of C17_job_clusters_nonvacuous / C17_kmedoids_directed_nonvacuous / C17_multi_tier_nonvacuous"""
+    pos = [0, 1, 2, 3, 6, 9, 10, 11, 30]
+    n = len(pos)
+    m = [[abs(a - b) for b in pos] + [2000] for a in pos] + [[2000] * n + [0]]
+    base = {'op': 'jobclusters', 'size': n + 1, 'dist': [m], 'dur': [[[0] * (n + 1) for _ in range(n + 1)]],
+            'jobs': [{'places': [i]} for i in range(n)], 'vehicles': [{'profile': 0, 'start': n, 'per_distance': 1, 'per_time': 0}],
+            'minp': 3, 'eps': [7, 2], 'shape': 'shared-border'}
+    return [
+        dict(base, order=list(range(n))),                  # the dense group claims the border job: the other cluster has 3 = min_points members
+        dict(base, order=list(range(n))[::-1]),
+        dict(base, order=list(range(n)), eps=None),
+        {'op': 'kmedoids', 'pts': [0, 1, 2, 3, 4, 5], 'k': 2, 'dist': ONEWAY6, 'kind': 'asym-oneway', 'shape': 'distinct', 'threads': 1},
+        {'op': 'hkmedoids', 'pts': [0, 1, 2, 3, 4, 5], 'tiers': 2, 'dist': ONEWAY6, 'kind': 'asym-oneway', 'shape': 'distinct', 'threads': 1},
+        {'op': 'multitier', 'size': 6, 'dist': [ONEWAY6], 'profile': 0, 'kind': 'asym-oneway'},
     ]
 
 
 # ------------------------------------------------------------------ model terms
-def model_term(c):
+def opt_term(x, f):
+    return 'None' if x is None else '(Some %s)' % f(x)
+
+
+def rows_term(rows):
+    """[profile][job] -> [(neighbour, cost), ...]"""
+    return '[' + '; '.join('[' + '; '.join('[' + '; '.join('(%d%%nat, %s)' % (j, coqterm.z(cst)) for j, cst in row) + ']' for row in prow) + ']'
+                           for prow in rows) + ']'
+
+
+def jobs_term(jobs):
+    """every job as the list of its sub-jobs' places (a single job has one sub-job)"""
+    def places(ls):
+        return '[' + '; '.join('None' if l is None else '(Some %d%%nat)' % l for l in ls) + ']'
+    return '[' + '; '.join('[' + '; '.join(places(s) for s in (j['multi'] if 'multi' in j else [j['places']])) + ']' for j in jobs) + ']'
+
+
+def model_term(c, impl=None):
     op = c['op']
+    if op == 'jobclusters':
+        if impl is None or 'panic' in impl or 'rows' not in impl:
+            return None
+        common = 'run_job_clusters %s %s' % (jobs_term(c['jobs']), rows_term(impl['rows']))
+        eps = opt_term(c['eps'], lambda e: '(%s # %d)%%Q' % (coqterm.z(e[0]), e[1]))
+        return '[%s %s %s %s; %s %s (Some 3%%nat) None]' % (
+            common, nl(c['order']), opt_term(c['minp'], lambda k: '%d%%nat' % k), eps,
+            common, nl(list(range(len(c['jobs'])))))
+    if op == 'multitier':
+        return 'run_multi_tier %s %d%%nat' % (zll(c['dist'][c['profile']]), c['size'])
     if op == 'dbscan':
         return 'run_dbscan %s %d%%nat %s' % (nll(c['nbr']), c['minp'], nl(c['pts']))
     if op == 'lkh':
@@ -253,8 +513,50 @@ def unopt(m):
     return None
 
 
+def as_sets(cs):
+    return sorted(sorted(cl) for cl in cs)
+
+
 def compare(c, impl, model):
     op = c['op']
+    if op == 'jobclusters':
+        if 'panic' in impl:
+            return 'implementation panicked: %s' % impl['panic']
+        (code, meps, cs), (scode, mseps, scs) = model
+        # the oracle's own (Fraction) re-computation of the estimated epsilon against the model's
+        for what, me, mp_, order in (('create_job_clusters', meps, c['minp'], c['order']), ('Jobs::new', mseps, 3, list(range(len(c['jobs']))))):
+            if what == 'create_job_clusters' and c['eps'] is not None:
+                continue
+            mine = jc_estimate_epsilon(c, impl['rows'], order, max(3 if mp_ is None else mp_, 2))
+            if Fraction(me[0], me[1]) != mine:
+                return '%s: estimated epsilon: model %s/%s, oracle %s' % (what, me[0], me[1], mine)
+        if code == 2 or scode == 2:
+            return 'model ran out of fuel'
+        if impl['err'] is not None:
+            return None if code == 1 else 'implementation returned Err(%s), model returned clusters' % impl['err']
+        if code == 1:
+            return 'model returns Err (no profile), implementation returned %s' % impl['clusters']
+        # the clusters are HashSets and the property does not order them: sets of sets
+        if as_sets(impl['clusters']) != as_sets(cs):
+            return 'create_job_clusters: impl %s model %s' % (as_sets(impl['clusters']), as_sets(cs))
+        if as_sets(impl['solver_clusters']) != as_sets(scs):
+            return 'Jobs::clusters(): impl %s model %s' % (as_sets(impl['solver_clusters']), as_sets(scs))
+        return None
+    if op == 'multitier':
+        if 'panic' in impl:
+            return 'implementation panicked: %s' % impl['panic']
+        if 'err' in impl:
+            return 'implementation returned Err(%s)' % impl['err']
+        if len(model) != len(impl['tiers']):
+            return 'tiers: impl %d model %d' % (len(impl['tiers']), len(model))
+        for t, (tie, m) in zip(impl['tiers'], model):
+            if tie == 'true':
+                _EXTRA['kmedoids_runs_with_assignment_tie_not_compared'] = _EXTRA.get('kmedoids_runs_with_assignment_tie_not_compared', 0) + 1
+                continue
+            mm = [[k, list(v)] for k, v in m]
+            if t != mm:
+                return 'tier: impl %s model %s' % (t, mm)
+        return None
     if op == 'dbscan':
         if 'panic' in impl:
             return 'implementation panicked: %s' % impl['panic']
@@ -299,7 +601,7 @@ def compare(c, impl, model):
             return None if m is None else 'implementation panicked (%s), model returned tiers' % impl['panic']
         if m is None:
             return 'model panics (expect "should be set"), implementation returned %s' % impl
-        if c['kind'] == 'sidon' and c['shape'] in ('distinct', 'empty'):
+        if c['kind'] in TIE_FREE_KINDS and c['shape'] in ('distinct', 'empty'):
             mm = [[[k, list(v)] for k, v in t] for t in m]
             if impl['tiers'] != mm:
                 return 'tiers: impl %s model %s' % (impl['tiers'], mm)
@@ -351,6 +653,122 @@ def dbscan_oracle(c, impl):
         if core(p) and p not in inc:
             v.append({'class': 'dbscan-core-unclustered', 'what': 'core point %d is in no cluster' % p})
             break
+    return v
+
+
+# ---- job-level DBSCAN wrapper: the contract w.r.t. the neighbourhood the wrapper constructs
+def jc_located_row(c, row):
+    return [(j, cst) for j, cst in row if job_has_locations(c['jobs'][j])]
+
+
+def jc_estimate_epsilon(c, rows, order, minp):
+    """estimate_epsilon over exact rationals (independent of the Coq model)"""
+    costs = []
+    for j in order:
+        acc = Fraction(0)
+        for prow in rows:
+            taken = jc_located_row(c, prow[j])[:minp]
+            acc += Fraction(sum(cst for _, cst in taken), len(taken) + 1)
+        costs.append(acc / len(rows))
+    costs = sorted(set(costs))
+    if not costs:
+        return Fraction(0)
+    pts = [(Fraction(i), y) for i, y in enumerate(costs)]
+    a, b = pts[0], pts[-1]
+    best_y, best = Fraction(0), None
+    for p_ in pts:
+        d = Fraction(0) if a == b else abs((b[0] - a[0]) * (p_[1] - a[1]) - (b[1] - a[1]) * (p_[0] - a[0]))
+        if best is None or d > best:
+            best_y, best = p_[1], d
+    return best_y
+
+
+def jc_contract(c, rows, order, minp_opt, eps_opt, clusters, prefix):
+    """pairwise disjoint / grown from a core job / only density-reachable jobs / no core job unclustered, for clusters given as sets"""
+    v = []
+    minp = max(3 if minp_opt is None else minp_opt, 2)
+    eps = Fraction(eps_opt[0], eps_opt[1]) if eps_opt is not None else jc_estimate_epsilon(c, rows, order, minp)
+    first = rows[0]
+
+    def N(j):
+        out = []
+        for k, cst in jc_located_row(c, first[j]):
+            if not cst < eps:
+                break
+            out.append(k)
+        return out
+
+    def core(j):
+        return len(N(j)) >= minp
+    flat = [j for cl in clusters for j in cl]
+    if len(flat) != len(set(flat)):
+        v.append({'class': prefix + '-overlap', 'what': 'a job occurs in two clusters: %s' % clusters})
+    for cl in clusters:
+        if any(not job_has_locations(c['jobs'][j]) for j in cl):
+            v.append({'class': prefix + '-job-without-location-clustered', 'what': 'cluster %s contains a job without locations' % cl})
+            continue
+        seeds = [j for j in cl if core(j)]
+        if not seeds:
+            v.append({'class': prefix + '-no-core-job-in-cluster', 'what': 'cluster %s contains no core job (min_points %d, epsilon %s)' % (cl, minp, eps)})
+            continue
+        ok = False
+        for s_ in seeds:
+            reach, todo = {s_}, [s_]
+            while todo:
+                x = todo.pop()
+                if core(x):
+                    for y in N(x):
+                        if y not in reach:
+                            reach.add(y)
+                            todo.append(y)
+            if all(j in reach for j in cl):
+                ok = True
+                break
+        if not ok:
+            v.append({'class': prefix + '-unreachable-member', 'what': 'cluster %s has a member that is not density-reachable from any of its core jobs' % cl})
+    inc = set(flat)
+    for j in order:
+        if job_has_locations(c['jobs'][j]) and core(j) and j not in inc:
+            nb = N(j)
+            shared = [k for k in nb if k in inc]
+            cls = prefix + '-core-point-unclustered'
+            if shared:
+                cls += ':neighbour-claimed-by-another-cluster'
+            v.append({'class': cls, 'what': 'core job %d (%d neighbours %s within epsilon %s, min_points %d) is in no cluster of %s' % (
+                j, len(nb), nb, eps, minp, clusters)})
+            break
+    return v
+
+
+def jobclusters_oracle(c, impl):
+    if 'panic' in impl:
+        return [{'class': 'job-clusters-panic', 'what': 'create_job_clusters / Problem construction panicked: ' + impl['panic']}]
+    if impl['err'] is not None:
+        return [{'class': 'job-clusters-error-with-profiles', 'what': 'create_job_clusters returned Err(%s) for a fleet with profiles %s' % (impl['err'], impl['profiles'])}]
+    v = jc_contract(c, impl['rows'], c['order'], c['minp'], c['eps'], impl['clusters'], 'job-clusters')
+    # what the solver (cluster-removal ruin) reads: Jobs::new with min_points 3 and an estimated epsilon, all jobs
+    v += jc_contract(c, impl['rows'], list(range(len(c['jobs']))), 3, None, impl['solver_clusters'], 'solver-job-clusters')
+    return v
+
+
+MULTI_TIER_KS = [2, 3, 4, 5, 8, 10, 12, 16, 32, 64]
+
+
+def multitier_oracle(c, impl):
+    if 'panic' in impl:
+        return [{'class': 'multi-tier-panic', 'what': 'create_multi_tier_clusters panicked: ' + impl['panic']}]
+    if 'err' in impl:
+        return [{'class': 'multi-tier-error', 'what': 'create_multi_tier_clusters returned Err(%s)' % impl['err']}]
+    v = []
+    ks = [k for k in MULTI_TIER_KS if k <= c['size'] // 3]
+    if len(impl['tiers']) != len(ks):
+        v.append({'class': 'multi-tier-tier-count', 'what': '%d tiers returned for %d locations, expected one per k in %s' % (len(impl['tiers']), c['size'], ks)})
+    cc = {'op': 'kmedoids', 'pts': list(range(c['size'])), 'k': 0, 'dist': c['dist'][c['profile']]}
+    for t in impl['tiers']:
+        for x in km_check(cc, t):
+            x = dict(x)
+            x['class'] = 'multi-tier-' + x['class']
+            v.append(x)
     return v
 
 
@@ -410,9 +828,13 @@ def km_check(c, clusters, nearest=True):
         for m, ps in clusters:
             for p_ in ps:
                 for m2, _ in clusters:
+                    # directed: distance_fn(point, medoid), FROM the point TO the medoid
                     if d[p_][m2] < d[p_][m]:
-                        v.append({'class': 'kmedoids-closer-to-other-medoid',
-                                  'what': 'point %d is in the cluster of medoid %d (d=%d) but medoid %d is closer (d=%d)' % (
+                        cls = 'kmedoids-closer-to-other-medoid'
+                        if not d[m2][p_] < d[m][p_]:
+                            cls += ':only-in-point-to-medoid-direction'      # invisible to symmetric distance functions
+                        v.append({'class': cls,
+                                  'what': 'point %d is in the cluster of medoid %d (d(point,medoid)=%d) but medoid %d is closer (d=%d)' % (
                                       p_, m, d[p_][m], m2, d[p_][m2])})
                         return v
     return v
@@ -442,6 +864,10 @@ def oracle(c, impl):
         return dbscan_oracle(c, impl)
     if op == 'lkh':
         return lkh_oracle(c, impl)
+    if op == 'jobclusters':
+        return jobclusters_oracle(c, impl)
+    if op == 'multitier':
+        return multitier_oracle(c, impl)
     return kmedoids_oracle(c, impl)
 
 
@@ -460,6 +886,12 @@ def nontrivial_key(c, impl):
         return ('km', json.dumps([c['pts'], c['k'], c['dist']])) if len(impl['clusters']) > 1 else None
     if c['op'] == 'hkmedoids':
         return ('hkm', json.dumps([c['pts'], c['tiers'], c['dist']])) if impl['tiers'] else None
+    if c['op'] == 'jobclusters':
+        if impl.get('clusters') or impl.get('solver_clusters'):
+            return ('jc', json.dumps([c['jobs'], c['dist'], c['dur'], c['vehicles'], c['order'], c['minp'], c['eps']]))
+        return None
+    if c['op'] == 'multitier':
+        return ('mt', json.dumps([c['size'], c['dist'], c['profile']])) if impl.get('tiers') else None
     return None
 
 
@@ -480,6 +912,22 @@ def classify(c, impl):
         labs.append('km-points:' + c['shape'])
         if c['op'] == 'kmedoids':
             labs.append('km-pool=%s' % ('1-thread' if c.get('threads', 1) == 1 else 'default'))
+    if c['op'] == 'jobclusters':
+        labs.append('jc-shape:' + c.get('shape', '?'))
+        labs.append('jc-epsilon:' + ('estimated' if c['eps'] is None else 'given'))
+        labs.append('jc-min-points:%s' % ('default' if c['minp'] is None else c['minp']))
+        labs.append('jc-profiles=%d' % len(c['dist']))
+        if 'panic' not in impl and impl.get('err') is None:
+            k = len(impl['clusters'])
+            labs.append('jc-clusters=%s' % (k if k < 3 else '3+'))
+            labs.append('jc-solver-clusters=%s' % (len(impl['solver_clusters']) if len(impl['solver_clusters']) < 3 else '3+'))
+            mp = max(3 if c['minp'] is None else c['minp'], 2)
+            if any(len(cl) <= mp for cl in impl['clusters']):
+                labs.append('jc-cluster-not-larger-than-min-points')
+    if c['op'] == 'multitier':
+        labs.append('mt-dist:' + c['kind'])
+        if 'tiers' in impl:
+            labs.append('mt-tiers=%d' % len(impl['tiers']))
     return labs
 
 
@@ -498,6 +946,9 @@ def checker_term(c, impl):
         return 'check_kmedoids %s %s %s' % (zll(c['dist']), nl(c['pts']), cmap_term(impl['clusters']))
     if c['op'] == 'hkmedoids' and impl['tiers']:
         return 'check_kmedoids %s %s %s' % (zll(c['dist']), nl(c['pts']), cmap_term(impl['tiers'][0]))
+    if c['op'] == 'multitier' and impl.get('tiers'):
+        # the verified k-medoids checker on the finest tier, with the directed distance of the requested profile
+        return 'check_kmedoids %s %s %s' % (zll(c['dist'][c['profile']]), nl(list(range(c['size']))), cmap_term(impl['tiers'][0]))
     return None
 
 
@@ -525,6 +976,8 @@ def checker_failure_class(c, impl, value):
         for code in value:
             out.append(km_partition_class(c) if code == 1 else 'kmedoids-closer-to-other-medoid')
         return out or None
+    if c['op'] == 'multitier':
+        return ['multi-tier-kmedoids-not-partition' if code == 1 else 'multi-tier-kmedoids-closer-to-other-medoid' for code in value] or None
     return None
 
 
@@ -605,9 +1058,12 @@ def shrink_candidates(c):
                 yield d
 
 
-MANIFEST_TEXT = ('Machine-checked proof (Coq, no axioms) over executable models of dbscan::create_clusters, lkh (Tour, KOpt) and '
-                 'k-medoids (create_kmedoids / create_hierarchical_kmedoids); models tied to /repo on every run by vm_compute '
-                 'evaluation on the same generated inputs as the real public functions, and verified boolean contract checkers '
-                 'evaluated on the implementation outputs.')
+MANIFEST_TEXT = ('Machine-checked proof (Coq, no axioms) over executable models of dbscan::create_clusters, lkh (Tour, KOpt), '
+                 'k-medoids (create_kmedoids / create_hierarchical_kmedoids, directed distance function) and of the wrappers the '
+                 'solver uses (construction::clustering::dbscan::create_job_clusters incl. the epsilon estimate, '
+                 'construction::clustering::kmedoids::create_multi_tier_clusters); models tied to /repo on every run by vm_compute '
+                 'evaluation on the same generated inputs as the real public functions (the job-level wrapper on a real Problem, also '
+                 'through Jobs::clusters()), and contract checkers (verified boolean checkers in Coq for the algorithms, a Python '
+                 'oracle with the directed distance / the constructed neighbourhood for the wrappers) evaluated on the implementation outputs.')
 MANIFEST_NOTE = 'see notes/C17.md'
 MANIFEST_TECHNIQUE = 'Coq proof over executable model + vm_compute differential correspondence with the Rust implementation'
